@@ -171,6 +171,22 @@ def items():
         out.append((f'generics.enum.tagged.{o}', f'#[derive(TS)] #[ts(tag = "t")] pub enum E<{params}> {{ A {{ {flds} }}, C }}'))
         if 'T' in o:
             out.append((f'generics.struct.inline_flatten.{o}', f'#[derive(TS)] pub struct S<{params}> {{ {flds}, #[ts(inline)] g: Gen<T>, #[ts(flatten)] h: Gen<T> }}'))
+    # field attributes on fields whose type mentions a type parameter, a lifetime parameter or the type itself: whatever the template
+    # of the attribute emits (a nested fn, a const, a closure) must still be able to name them
+    GATTR = [('optional', '#[ts(optional)]', 'Option<{}>'), ('nullable', '#[ts(optional = nullable)]', 'Option<{}>'), ('inline', '#[ts(inline)]', 'Gen<{}>'),
+             ('flatten', '#[ts(flatten)]', 'Gen<{}>'), ('type', '#[ts(type = "string")]', '{}'), ('as', '#[ts(as = "Option<_>")]', '{}'), ('skip', '#[ts(skip)]', '{}'),
+             ('rename', '#[ts(rename = "r")]', '{}'), ('docs', '/// documented', 'Vec<{}>'), ('plain', '', 'Option<{}>')]
+    for cell, attr, ty in GATTR:
+        attr = attr + '\n    ' if attr else ''
+        t, l, me = ty.format('T'), ty.format("&'a str"), ty.format('Box<Self>')
+        out.append((f'generics.field.{cell}.type_param', f'#[derive(TS)] pub struct S<T> {{ {attr} f: {t}, g: i32 }}'))
+        out.append((f'generics.field.{cell}.lifetime', f"#[derive(TS)] pub struct S<'a> {{ {attr} f: {l}, g: i32 }}"))
+        if cell not in ('inline', 'flatten'):
+            out.append((f'generics.field.{cell}.self', f'#[derive(TS)] pub struct S {{ {attr} f: {me}, g: i32 }}'))
+        out.append((f'generics.variant_field.{cell}.type_param', f'#[derive(TS)] pub enum E<T> {{ A {{ {attr} f: {t}, g: i32 }}, B }}'))
+        out.append((f'generics.variant_field.{cell}.tagged.type_param', f'#[derive(TS)] #[ts(tag = "t")] pub enum E<T> {{ A {{ {attr} f: {t}, g: i32 }}, B }}'))
+        if cell in ('type', 'as', 'skip', 'inline', 'docs', 'plain'):
+            out.append((f'generics.tuple_field.{cell}.type_param', f'#[derive(TS)] pub struct S<T>({attr} {t}, i32);'))
     for infl in INFLECTIONS:
         out.append((f'container.struct.rename_all.{infl}', f'#[derive(TS)] #[ts(rename_all = "{infl}")] pub struct S {{ some_field: i32, r#type: i32, other: Inner }}'))
         out.append((f'container.enum.rename_all.{infl}', f'#[derive(TS)] #[ts(rename_all = "{infl}")] pub enum E {{ SomeVariant, Other {{ some_field: i32 }}, T(i32) }}'))
